@@ -5,7 +5,7 @@
 From Coq Require Import ZArith List Bool String PeanoNat Permutation Sorted Reals Lia.
 From FF Require Import Model.B64 Model.Pulse Spec.PulseSpec Model.Tie.C17
   Proofs.PulseBase Proofs.PulseJoin Proofs.PulseCanon Proofs.PulseEq Proofs.PulseMisc Proofs.B64 Proofs.PulseInst
-  Proofs.PulseTime Proofs.PulseCopy Proofs.PulseHam Proofs.PulseComplete.
+  Proofs.PulseTime Proofs.PulseCopy Proofs.PulseHam Proofs.PulseComplete Proofs.B64Err Proofs.PulseRounded.
 (* the observables of the correspondence check are rebuilt together with the model *)
 From FF Require Corr.PulseObs.
 Import ListNotations.
@@ -195,7 +195,7 @@ Print Assumptions C17_eq_zero_duration_example.
    (on t >= 0; durations non-negative, normalised, not all zero) compare equal.  Proved through the uniqueness of
    the canonical form (positive durations, no two equal neighbours): [canon_unique].  With exact addition of the
    durations (eq_exact: the algorithm without rounding) it is an equivalence; for binary64 it holds whenever the
-   merged durations are exact sums (otherwise the tolerances of np.allclose decide: C17_eq_char). *)
+   merged durations are exact sums, and in general by C17_eq_complete_rounded below. *)
 Theorem C17_canonical_form_unique : forall L1 L2,
   positive L1 -> positive L2 -> no_adjacent_equal L1 -> no_adjacent_equal L2 ->
   (forall t, (0 <= t)%R -> at_time L1 t = at_time L2 t) -> Forall2 seg_equiv L1 L2.
@@ -215,6 +215,43 @@ Theorem C17_eq_complete : forall A B, wf A -> wf B -> same_frame A B -> good_dur
   (forall t, (0 <= t)%R -> at_time (segments A) t = at_time (segments B) t) -> eq64 A B = true.
 Proof. exact eq64_complete. Qed.
 Print Assumptions C17_eq_complete.
+(* Rounding of the merged durations (Proofs/B64Err.v).  One binary64 rounding step has relative error at most 2^-53
+   (any sign, exponent >= -1074); adding non-negative values likewise; the accumulation loop of _join_equal_segments
+   (left-to-right summation of n pending durations onto the last one) is within (1+2^-53)^n - 1 of the exact sum. *)
+Theorem C17_rnd64_relative_error : forall a, (emin <= snd a)%Z ->
+  (Rabs (d2R (rnd64 a) - d2R a) <= u64 * Rabs (d2R a))%R.
+Proof. exact rnd64_error_abs. Qed.
+Theorem C17_fadd64_relative_error : forall L a b, (emin <= L <= 0)%Z -> lowexp L a -> lowexp L b ->
+  (Rabs (d2R (fadd64 a b) - (d2R a + d2R b)) <= u64 * (d2R a + d2R b))%R /\ lowexp L (fadd64 a b).
+Proof. exact fadd64_error. Qed.
+Theorem C17_summation_error : forall L pend x, (emin <= L <= 0)%Z -> lowexp L x -> Forall (lowexp L) pend ->
+  let S := (d2R x + Proofs.PulseTime.sumR pend)%R in
+  (Rabs (d2R (fold_left fadd64 pend x) - S) <= ((1 + u64) ^ length pend - 1) * S)%R /\ lowexp L (fold_left fadd64 pend x).
+Proof. exact fold_fadd64_error. Qed.
+(* two roundings of the same positive sum, each within 2^-36 relative, pass np.isclose(rtol = 1e-10) -- every operation
+   of the test rounded as in the implementation *)
+Theorem C17_close_from_sums : forall nb A B S g, lowexp (-988) A -> lowexp (-988) B -> (0 < S)%R -> (0 <= g <= w36)%R ->
+  (Rabs (d2R A - S) <= g * S)%R -> (Rabs (d2R B - S) <= g * S)%R -> close_dt nb A B = true.
+Proof. exact close_dt_from_sums. Qed.
+(* Hence: two well-formed pulses (same operators, identifiers, basis; at most 2^16 segments each; durations non-negative,
+   normalised, not all zero, exponents >= -988 so that rtol*|b| does not underflow; the model has no overflow) that are
+   the same function of time compare equal -- whether or not their merges round. *)
+Theorem C17_eq_complete_rounded : forall A B, wf A -> wf B -> same_frame A B -> good_durations A -> good_durations B ->
+  no_underflow A -> no_underflow B -> (Z.of_nat (length (dt A)) <= 2 ^ 16)%Z -> (Z.of_nat (length (dt B)) <= 2 ^ 16)%Z ->
+  (forall t, (0 <= t)%R -> at_time (segments A) t = at_time (segments B) t) -> eq64 A B = true.
+Proof. exact eq64_complete_rounded. Qed.
+Print Assumptions C17_eq_complete_rounded.
+(* hypotheses satisfiable on a pair whose merge really rounds: durations 1, 2^-53, 2^-53 (merged by the code to 1, exact
+   sum 1 + 2^-52) against the single duration 1 + 2^-52 *)
+Example C17_eq_complete_rounded_example :
+  wf rnd_split /\ wf rnd_merged /\ same_frame rnd_split rnd_merged /\ good_durations rnd_split /\ good_durations rnd_merged /\
+  no_underflow rnd_split /\ no_underflow rnd_merged /\
+  (forall t, (0 <= t)%R -> at_time (segments rnd_split) t = at_time (segments rnd_merged) t) /\
+  jdt fadd64 rnd_split <> jdt dadd rnd_split /\ eq64 rnd_split rnd_merged = true /\ eq64 rnd_merged rnd_split = true.
+Proof. exact rounded_example. Qed.
+(* The remaining edge is the converse at the tolerance: pulses whose canonical durations differ by less than the tolerance
+   of np.allclose but are different functions of time compare equal -- exactly what C17_eq_char states (documented scope). *)
+
 (* hypotheses satisfiable: the zero-duration pair *)
 Example C17_eq_complete_example :
   same_frame zd_split zd_merged /\ good_durations zd_split /\ good_durations zd_merged /\
